@@ -95,6 +95,14 @@ def translate_format_default(src):
             if e.args[1].id not in kinds:
                 raise Shape("isinstance(unwrap_type(..), %s)" % e.args[1].id)
             return "(Prims.baseIsKind s %s Kind.%s)" % (term(e.args[0].args[0]), kinds[e.args[1].id])
+        # unwrap_type(x.type) in (String, ID)   — library scalar objects are named like their GraphQL types
+        if (isinstance(e, ast.Compare) and len(e.ops) == 1 and isinstance(e.ops[0], ast.In) and isinstance(e.left, ast.Call)
+                and isinstance(e.left.func, ast.Name) and e.left.func.id == "unwrap_type" and len(e.left.args) == 1
+                and isinstance(e.comparators[0], (ast.Tuple, ast.List)) and all(isinstance(c, ast.Name) for c in e.comparators[0].elts)):
+            names = [c.id for c in e.comparators[0].elts]
+            if not all(n in ("String", "ID", "Int", "Float", "Boolean") for n in names):
+                raise Shape("unwrap_type(..) in (%s)" % ", ".join(names))
+            return "(Prims.baseIsOneOf %s [%s])" % (term(e.left.args[0]), ", ".join(json.dumps(n) for n in names))
         if isinstance(e, ast.Call) and isinstance(e.func, ast.Name) and e.func.id == "isinstance" and len(e.args) == 2:
             cls = e.args[1]
             names = [c.id for c in cls.elts] if isinstance(cls, ast.Tuple) else [cls.id]
@@ -1153,6 +1161,172 @@ def oracle_meta_below_non_query(ctx):
                          {"check": "meta-below-non-query", "executor": name, "disable": dis})
 
 
+def _defaults_report(ctx, sig, schema, detail, expect_errors=0):
+    """standard query on `schema`; every declared default must be reported as text denoting it (no raise, no errors
+    unless `expect_errors` field errors at defaultValue paths are the required outcome)"""
+    for cfg in ("blocking", "generic"):
+        ctx.count()
+        ctx.nontrivial((sig, cfg))
+        st, r = L.execute(schema, std_query(), cfg)
+        if st != "ok":
+            ctx.fail(sig + ":no-response:raises-%s" % r, "the standard introspection query raises %s" % r, dict(detail, config=cfg))
+            continue
+        errs = r.get("errors") or []
+        if len(errs) != expect_errors or not all(json.dumps(e.get("path")).endswith('"defaultValue"]') for e in errs):
+            ctx.fail(sig + ":field-errors", "%d field errors (expected %d at defaultValue paths): %s" % (len(errs), expect_errors, [e.get("message") for e in errs][:2]),
+                     dict(detail, config=cfg))
+            continue
+        if expect_errors or not r.get("data"):
+            continue
+        sub = Ctx2(ctx)
+        check_reports_schema(sub, schema, r["data"], detail)
+        for f in sub.found:
+            if f["kind"] == "property" and not f["signature"].startswith("default-not-graphql:string:control"):
+                ctx.fail(sig + ":" + f["signature"], f["what"], dict(detail, config=cfg))
+
+
+def oracle_hunt3(ctx):
+    """Ledger I13-I17 (third hunt): default values whose wire form is not their Python form."""
+    import base64
+    import datetime
+    from py_gql import build_schema
+    from py_gql.schema import (Argument, EnumValue, Field, InputField, InputObjectType, Int, ListType, ObjectType, ScalarType,
+                               Schema)
+    from py_gql.sdl import SchemaDirective
+    d0 = {"check": "hunt3"}
+    # I13: a scalar whose serialized form differs from its (str) Python value, at top level / in lists / in objects
+    b64 = ScalarType("Base64", serialize=lambda v: base64.b64encode(v.encode()).decode(), parse=lambda v: base64.b64decode(v).decode())
+    inp = InputObjectType("B", [InputField("b", b64, default_value="in field")])
+    _defaults_report(ctx, "default-serializing-scalar", Schema(ObjectType("Query", [Field("f", Int, [
+        Argument("top", b64, default_value="hello"), Argument("list", ListType(b64), default_value=["hello", "x y"]),
+        Argument("single", ListType(b64), default_value="hello"), Argument("obj", inp, default_value={"b": "hello"})])])), d0)
+    # I15: a dict at a list position is ONE item
+    js = ScalarType("Json", serialize=lambda v: v, parse=lambda v: v, parse_literal=L.typed_parse_literal)
+    pt = InputObjectType("Point", [InputField("x", Int), InputField("y", Int)])
+    _defaults_report(ctx, "default-dict-at-list-position", Schema(ObjectType("Query", [Field("f", Int, [
+        Argument("tags", ListType(js), default_value={"a": 1}), Argument("path", ListType(pt), default_value={"x": 1, "y": 2}),
+        Argument("nested", ListType(ListType(pt)), default_value=[{"x": 1}])])])), d0)
+    # I16: non-finite floats have no literal spelling: a field error, never `inf` / `nan` as text
+    _defaults_report(ctx, "default-non-finite-float", Schema(ObjectType("Query", [Field("f", Int, [
+        Argument("a", js, default_value=float("-inf")), Argument("b", js, default_value={"ratio": float("inf")}),
+        Argument("c", js, default_value=[1, float("nan")])])])), d0, expect_errors=3)
+    # I14: schema directives giving an enum its Python values / implementing a scalar (the library's @cssColor pattern)
+    colors = {"RED": "#FF4136", "BLUE": "#0074D9", "GREEN": "#2ECC40"}
+
+    class CSSColor(SchemaDirective):
+        definition = "cssColor"
+
+        def on_enum_value(self, ev):
+            return EnumValue(ev.name, colors[ev.name], description=ev.description, deprecation_reason=ev.deprecation_reason)
+
+    class SwapColor(SchemaDirective):
+        definition = "cssColor"
+
+        def on_enum_value(self, ev):
+            return EnumValue(ev.name, {"RED": "BLUE", "BLUE": "RED", "GREEN": "GREEN"}[ev.name])
+
+    class DateScalar(SchemaDirective):
+        definition = "date"
+
+        def on_scalar(self, sc):
+            return ScalarType(sc.name, serialize=lambda v: v.isoformat(), parse=datetime.date.fromisoformat)
+    sdl = ("directive @cssColor on ENUM_VALUE\ndirective @date on SCALAR\nscalar Date @date\n"
+           "enum Color { RED @cssColor BLUE @cssColor GREEN @cssColor }\ninput In { c: Color = BLUE, d: Date = \"2020-01-02\" }\n"
+           "type Query { color(c: Color = RED, l: [Color] = [BLUE], i: In = {c: GREEN}, days: [Date] = [\"2020-01-02\"]): String }")
+    for name, dirs in (("enum-values", (CSSColor, DateScalar)), ("enum-values-swapped", (SwapColor, DateScalar))):
+        try:
+            schema = build_schema(sdl, schema_directives=dirs)
+        except Exception as e:  # noqa
+            ctx.stat("hunt3:schema-directive-%s:not-buildable-%s" % (name, type(e).__name__))
+            continue
+        _defaults_report(ctx, "default-after-schema-directive:" + name, schema, d0)
+
+
+def oracle_hunt3_findings(ctx):
+    """Ledger I18-I21 (third hunt, recorded as known findings; the check keeps asking)."""
+    from py_gql import build_schema
+    from py_gql.schema import ObjectType, SchemaVisitor
+    from py_gql.schema.transforms import transform_schema
+    d0 = {"check": "hunt3-findings"}
+
+    def ask(schema, q):
+        st, r = L.execute(schema, q, "blocking")
+        ctx.count()
+        return (r.get("data") if st == "ok" and not r.get("errors") else None)
+
+    # I18: deprecation_reason assigned after construction (documented public attribute)
+    class Sunset(SchemaVisitor):
+        def on_field(self, f):
+            if f.name == "old":
+                f.deprecation_reason = "use new"
+            return f
+
+        def on_enum_value(self, v):
+            if v.name == "OLD":
+                v.deprecation_reason = "use NEW"
+            return v
+    try:
+        s = transform_schema(build_schema("enum E { OLD NEW } type Query { old: Int new: Int e: E }"), Sunset())
+        d = ask(s, '{ q: __type(name: "Query") { fields { name } all: fields(includeDeprecated: true) { name isDeprecated } } '
+                   'e: __type(name: "E") { enumValues { name } all: enumValues(includeDeprecated: true) { name isDeprecated } } }')
+        if d:
+            for what, key, vis, allm in (("field", "old", d["q"]["fields"], d["q"]["all"]), ("enum-value", "OLD", d["e"]["enumValues"], d["e"]["all"])):
+                ctx.nontrivial(("reason-assigned-later", what))
+                flag = [x["isDeprecated"] for x in allm if x["name"] == key]
+                if flag != [True] or key in [x["name"] for x in vis]:
+                    ctx.fail("deprecated-flag:reason-assigned-later:" + what, "a %s whose deprecation_reason was assigned after construction is reported with isDeprecated %s and is %s by default"
+                             % (what, flag, "listed" if key in [x["name"] for x in vis] else "hidden"), dict(d0, member=what))
+    except Exception as e:  # noqa
+        ctx.stat("hunt3-findings:I18:" + type(e).__name__)
+
+    # I19: possibleTypes vs interfaces after an in-place `interfaces` assignment
+    class Detach(SchemaVisitor):
+        def on_object(self, t):
+            t = super().on_object(t)
+            if t is not None and t.name == "A":
+                t.interfaces = []
+            return t
+    try:
+        s = transform_schema(build_schema("interface I { x: Int } type A implements I { x: Int } type B implements I { x: Int } type Query { i: I a: A }"), Detach())
+        d = ask(s, '{ a: __type(name: "A") { interfaces { name } } i: __type(name: "I") { possibleTypes { name } } }')
+        if d:
+            ctx.nontrivial("possible-types-vs-interfaces")
+            if d["a"]["interfaces"] == [] and "A" in [x["name"] for x in d["i"]["possibleTypes"]]:
+                ctx.fail("possible-types-stale:interfaces-assigned-in-place", "A.interfaces is [] but I.possibleTypes still lists A", d0)
+    except Exception as e:  # noqa
+        ctx.stat("hunt3-findings:I19:" + type(e).__name__)
+
+    # I20: a type renamed by a visitor answers __type(name:) under the OLD name only
+    class Prefix(SchemaVisitor):
+        def on_object(self, t):
+            t = super().on_object(t)
+            if t is not None and t.name == "A":
+                return ObjectType("Shop_A", list(t.fields), description=t.description)
+            return t
+    try:
+        s = transform_schema(build_schema("type Query { a: A } type A { x: Int }"), Prefix())
+        d = ask(s, '{ new: __type(name: "Shop_A") { name } old: __type(name: "A") { name } __schema { types { name } } }')
+        if d:
+            ctx.nontrivial("renamed-type")
+            listed = [t["name"] for t in d["__schema"]["types"]]
+            if "Shop_A" in listed and (d["new"] is None or d["old"] is not None):
+                ctx.fail("type-query-renamed-type:answers-under-old-name", "Shop_A is listed, but __type(name: \"Shop_A\") = %r and __type(name: \"A\") = %r" % (d["new"], d["old"]), d0)
+    except Exception as e:  # noqa
+        ctx.stat("hunt3-findings:I20:" + type(e).__name__)
+
+    # I21: the standard query's TypeRef fragment has 8 levels (theorem typeRef_truncates_beyond_query_depth)
+    try:
+        s = build_schema("type Query { t: [[[[Int!]!]!]!] }")
+        d = ask(s, std_query())
+        if d:
+            ctx.nontrivial("depth-8")
+            t = [f for ty in d["__schema"]["types"] if ty["name"] == "Query" for f in ty["fields"]][0]["type"]
+            if L.ty_of_ref(t) is None:
+                ctx.fail("type-ref-truncated-by-standard-query:8-wrappers", "a field type with 8 wrappers is reported without its named type (the query stops after 7 ofType links)", d0)
+    except Exception as e:  # noqa
+        ctx.stat("hunt3-findings:I21:" + type(e).__name__)
+
+
 def oracle_directive_locations(ctx):
     """Ledger I5. Every directive location the PARSER accepts in a directive definition (and `Directive(...)`
     accepts in code) must be introspectable: `__schema { directives { locations } }` reports it, nothing raises."""
@@ -1240,6 +1414,8 @@ def run(ctx):
     try:
         oracle_empty_reason(ctx)
         oracle_null_reason(ctx)
+        oracle_hunt3(ctx)
+        oracle_hunt3_findings(ctx)
         oracle_meta_below_non_query(ctx)
         oracle_inexpressible_defaults(ctx)
         oracle_directive_locations(ctx)
@@ -1287,11 +1463,11 @@ def replay(ctx, data):
         sub = Ctx2(ctx)
         C15_history.one_history(sub, sys.modules[__name__], inp["case"], inp["kind"], inp["hseed"])
         return not any(f["signature"] == data.get("signature") for f in sub.found)
-    if inp.get("check") in ("directive-locations", "numeric-strings", "null-reason", "inexpressible-defaults", "meta-below-non-query"):
+    if inp.get("check") in ("directive-locations", "numeric-strings", "null-reason", "inexpressible-defaults", "meta-below-non-query", "hunt3", "hunt3-findings"):
         sub = Ctx2(ctx)
         {"directive-locations": oracle_directive_locations, "numeric-strings": oracle_numeric_strings,
          "null-reason": oracle_null_reason, "inexpressible-defaults": oracle_inexpressible_defaults,
-         "meta-below-non-query": oracle_meta_below_non_query}[inp["check"]](sub)
+         "meta-below-non-query": oracle_meta_below_non_query, "hunt3": oracle_hunt3, "hunt3-findings": oracle_hunt3_findings}[inp["check"]](sub)
         return not any(f["signature"] == data.get("signature") for f in sub.found)
     if inp.get("check") == "empty-reason":
         sub = Ctx2(ctx)
